@@ -97,6 +97,16 @@ func judgeC01Run(rec *stats.Rec, c engine.Case, run *engine.Run) (string, string
 	return "", "", run
 }
 
+func kindOfLate(k string) gen.Kind {
+	switch k {
+	case "cert":
+		return gen.Cert
+	case "crl":
+		return gen.CRL
+	}
+	return gen.OCSP
+}
+
 func TestC01(t *testing.T) {
 	rec := newRec(t, "C01")
 	// fixed: nil objects give nil, for every kind and registry
@@ -139,6 +149,40 @@ func TestC01(t *testing.T) {
 		}
 		return sig, msg
 	}, func(s string) { t.Fatalf("%s", s) })
+	// after additions: lints of every kind are registered one at a time while the registry is in use (every kind of
+	// use, lint runs included, between two registrations - and registrations the library refuses); after each one a
+	// certificate, a revocation list and an OCSP response are linted through the global registry, explicitly and as the
+	// default: one result for every lint of the kind, the late ones included
+	if sh, _ := stats.Shard(); sh == 0 {
+		for i := range lateKinds {
+			registerLate(i + 1)
+			for _, objs := range [][]gen.Obj{co.Certs, co.CRLs, co.OCSPs} {
+				for k := 0; k < 2 && k < len(objs); k++ {
+					o := objs[(k*7+i)%len(objs)]
+					c := engine.Case{Kind: o.Kind, DER: o.DER, Base: o.Name, NilReg: k == 1, Late: i + 1, Note: fmt.Sprintf("after %d late registrations", i+1)}
+					rec.Eval()
+					rec.Class("after_addition")
+					rec.NT(stats.HashS("after-addition", lateName(i), string(o.Kind), fmt.Sprint(k)))
+					sig, msg, run := judgeC01(rec, c)
+					if msg == "" && run.Parsed && run.RS != nil {
+						// the model of what has been registered: every late lint of this kind so far has a result
+						for j := 0; j <= i; j++ {
+							if kindOfLate(lateKinds[j]) == o.Kind {
+								if _, ok := run.RS.Results[lateName(j)]; !ok {
+									sig, msg = "missing-result|late", fmt.Sprintf("%s was registered through the public API, the registry was used again, and a %s lint run has no result for it", lateName(j), o.Kind)
+								}
+							}
+						}
+					}
+					if msg != "" {
+						if rec.Report("c01", "after-addition|"+sig, msg, c) {
+							t.Errorf("c01 after registering %s: %s: %s", lateName(i), sig, msg)
+						}
+					}
+				}
+			}
+		}
+	}
 	rapidRun(t, "generated", perShard(stats.Scale(40000, 1500000)), func(rt *rapid.T) {
 		c := drawObject(rt, 4, true)
 		drawRegistry(rt, &c)
@@ -186,7 +230,17 @@ func init() {
 			}
 			return "", ""
 		}
-		sig, msg, _ := judgeC01(rec, c)
+		if c.Late > 0 {
+			registerLate(c.Late)
+		}
+		sig, msg, run := judgeC01(rec, c)
+		if msg == "" && run.Parsed && run.RS != nil {
+			for j := 0; j < c.Late && j < len(lateKinds); j++ {
+				if _, ok := run.RS.Results[lateName(j)]; !ok && kindOfLate(lateKinds[j]) == c.Kind {
+					return "missing-result|late", lateName(j) + " was registered through the public API and has no result"
+				}
+			}
+		}
 		return sig, msg
 	})
 }
